@@ -434,26 +434,84 @@ func (e *ex) set(response bool, n *node) core.Result {
 	return core.Result{Impl: "set " + b01(has), ModelOp: "set " + map[bool]string{false: "q", true: "s"}[response] + " " + n.String()}
 }
 
-func (e *ex) run(kind string, m *message) core.Result {
-	response := kind == "s"
-	req, res := m.build()
-	var err error
-	var trace []string
-	if response {
-		err = e.mod.ModifyResponse(res)
-		trace = res.Header[traceHeader]
-		if len(req.Header[traceHeader]) > 0 {
-			return fail("c12:wrong-kind", "a response run touched the request (trace %v)", req.Header[traceHeader])
-		}
-	} else {
-		err = e.mod.ModifyRequest(req)
-		trace = req.Header[traceHeader]
-	}
+func traceInts(trace []string) []int {
 	var tr []int
 	for _, s := range trace {
 		l, _ := strconv.Atoi(s)
 		tr = append(tr, l)
 	}
+	return tr
+}
+
+func (e *ex) run(kind string, m *message) core.Result {
+	response := kind == "s"
+	req, res := m.build()
+	if response {
+		err := e.mod.ModifyResponse(res)
+		if len(req.Header[traceHeader]) > 0 {
+			return fail("c12:wrong-kind", "a response run touched the request (trace %v)", req.Header[traceHeader])
+		}
+		return e.judgeRun(true, m, traceInts(res.Header[traceHeader]), err)
+	}
+	err := e.mod.ModifyRequest(req)
+	return e.judgeRun(false, m, traceInts(req.Header[traceHeader]), err)
+}
+
+// xrun: ONE exchange with a real martian.Context: its request goes through the request side as m1 says,
+// then the exchange changes (as a modifier or the round trip may change it) to what m2 says, then the
+// response — attached to the SAME *http.Request, same context — goes through the response side. Each
+// side must decide on the exchange as it is at that moment.
+func (e *ex) xrun(m1, m2 *message) core.Result {
+	req, _ := m1.build()
+	_, remove, err := martian.TestContext(req, nil, nil)
+	if err != nil {
+		return fail("c12:harness", "martian.TestContext: %v", err)
+	}
+	defer remove()
+	err1 := e.mod.ModifyRequest(req)
+	r1 := e.judgeRun(false, m1, traceInts(req.Header[traceHeader]), err1)
+	req2, res := m2.build()
+	req.Method, req.URL, req.Host, req.ContentLength, req.TransferEncoding, req.Header =
+		req2.Method, req2.URL, req2.Host, req2.ContentLength, req2.TransferEncoding, req2.Header
+	res.Request = req
+	err2 := e.mod.ModifyResponse(res)
+	if len(req.Header[traceHeader]) > 0 {
+		return fail("c12:wrong-kind", "the response side touched the request (trace %v)", req.Header[traceHeader])
+	}
+	r2 := e.judgeRun(true, m2, traceInts(res.Header[traceHeader]), err2)
+	core.Count("xrun:exchanges")
+	out := core.Result{Impl: r1.Impl + " | " + r2.Impl}
+	if r1.Fail != "" {
+		out.Fail, out.Sig = "request side of the exchange: "+r1.Fail, r1.Sig
+	} else if r2.Fail != "" {
+		out.Fail, out.Sig = "response side of an exchange whose request side ran first on "+m1.describe()+": "+r2.Fail, r2.Sig
+		if r2.Sig == "c12:trace-mismatch" || r2.Sig == "c12:error-mismatch" {
+			// does the response side replay the request-time reading?
+			old := interp(e.sideS, true, func(c *condSpec) bool { h, _ := holdsSpec(c, m1, true); return h })
+			if sameInts(old.trace, r2trace(r2.Impl)) {
+				out.Sig = "c12:response-side-decided-on-the-request-time-exchange"
+			}
+		}
+	}
+	return out
+}
+
+// r2trace: the labels of an observation line "t=<labels> e=…".
+func r2trace(impl string) []int {
+	f := strings.Fields(impl)
+	if len(f) == 0 || !strings.HasPrefix(f[0], "t=") || f[0] == "t=-" {
+		return nil
+	}
+	var out []int
+	for _, x := range strings.Split(f[0][2:], ",") {
+		l, _ := strconv.Atoi(x)
+		out = append(out, l)
+	}
+	return out
+}
+
+// judgeRun: one side's observation against the depth-first reading of the tree in force on that side.
+func (e *ex) judgeRun(response bool, m *message, tr []int, err error) core.Result {
 	inForce := e.sideQ
 	if response {
 		inForce = e.sideS
@@ -540,6 +598,13 @@ func (e *ex) Do(op string) core.Result {
 			return core.Result{Impl: "bad-op"}
 		}
 		return e.run(f[1], m)
+	case len(f) == 3 && f[0] == "xrun":
+		m1, ok1 := parseMessage(f[1])
+		m2, ok2 := parseMessage(f[2])
+		if !ok1 || !ok2 {
+			return core.Result{Impl: "bad-op"}
+		}
+		return e.xrun(m1, m2)
 	case len(f) == 4 && f[0] == "cond" && (f[1] == "q" || f[1] == "s"):
 		c, ok1 := parseCondTok(f[2])
 		m, ok2 := parseMessage(f[3])
